@@ -77,7 +77,7 @@ class World:
     def gen_plan(self, seed, tier):
         r = random.Random(seed)
         n = r.choice([1, 2, 2, 3, 3, 3, 4, 4]) if r.random() > 0.05 else 5
-        wide = r.random() < 0.06
+        wide = r.random() < 0.10
         if wide:
             n = r.choice([9, 9, 10])   # gates whose qubits lie nine or more register positions apart
         sims = [{"kind": "symbolic"}]
@@ -90,7 +90,7 @@ class World:
                 arg = r.sample(sorted(gen.BUILTIN), r.randint(3, 15)) + r.sample(["Control", "Dagger", "MyRot"], r.randint(0, 2))
             elif fam == "parity":
                 arg = r.choice([0, 1])
-            sims.append({"kind": "split", "family": fam, "arg": arg, "real_apply": r.random() < 0.5, "inplace": r.random() < 0.3})
+            sims.append({"kind": "split", "family": fam, "arg": arg, "real_apply": r.random() < 0.5, "inplace": r.random() < 0.5})
         cfg = {"n": n, "sims": sims, "faults": r.choice(["none", "none", "low", "medium"]), "clients": r.randint(1, 3),
                "wrappers": r.choice([0.0, 0.3, 0.6]), "phase_ops": r.choice([0.0, 0.15, 0.3]),
                "exclude": [] if r.random() < 0.5 else ["U3"], "cache_clear": r.choice([0, 0.2]),
@@ -101,7 +101,7 @@ class World:
         if wide:
             n_ops_max = 3
         def mk():
-            nn = r.choice([n, n, n, max(1, n - 1)])
+            nn = r.choice([n, n, n, max(1, n - 1), max(1, n - 2)])
             c = gen.rand_circuit(r, nn, r.choice([0, 1, 2, 3, 5, 8, n_ops_max]) if not wide else r.choice([1, 2, 3]), phase_ops=cfg["phase_ops"] if not wide else 0.0,
                                  wrappers=cfg["wrappers"], rich=True, exclude=cfg["exclude"], custom=0.12,
                                  max_arity=4)
@@ -113,7 +113,7 @@ class World:
         pf = {"none": 0.0, "low": 0.2, "medium": 0.45}[cfg["faults"]]
         while len(steps) < n_steps:
             op = r.choices(["mk", "concat", "append", "wf", "unitary", "stepwise", "reject", "clear", "symeval", "mk_grow"],
-                           [2, 2, 1.5, 8, 3, 2, 0.7, 0.3 if cfg["cache_clear"] else 0, cfg["symbolic"], cfg["grow"]])[0]
+                           [2, 3, 1.5, 8, 3, 2, 0.7, 0.3 if cfg["cache_clear"] else 0, cfg["symbolic"], cfg["grow"]])[0]
             if op == "mk":
                 steps.append(mk())
             elif op == "concat":
